@@ -238,4 +238,17 @@ where
     }
 }
 
+/// LossyFrom<fixed> for floats is to_num (whose exactness is the to_float obligation)
+pub fn lossy_float<L, F>()
+where
+    L: Fixed,
+    F: Flt + substrate_fixed::traits::LossyFrom<L>,
+    L::Bits: Raw,
+{
+    let a = <L::Bits as Raw>::any();
+    let x = L::from_bits(a);
+    kani::cover!(true, "W:reached");
+    assert!(F::lossy_from(x).bits64() == x.to_num::<F>().bits64(), "LossyFrom<fixed> for float = to_num");
+}
+
 include!("gen_c05.rs");
